@@ -307,6 +307,10 @@ func runUDP(rc *RunCtx, which string) {
 					}
 					id := fmt.Sprintf("t%d-%d", ti, nReply)
 					p := append([]byte(id+"|"), payload(G, sz)...)
+					if which == "c16" && G.Draw(8) == 0 {
+						p = nil // a datagram with no payload at all is a datagram too
+						simrt.Probe("empty_datagram_from_target")
+					}
 					sock := ts
 					if useStranger && k == 1 {
 						sock = stranger
@@ -375,6 +379,11 @@ func runUDP(rc *RunCtx, which string) {
 				bad := []string{"10.0.0.1:53000", "127.0.0.1:4000", "192.168.1.1:4000", "[fc00::1]:4000", "100.64.0.1:4000", "169.254.1.1:4000", "224.0.0.1:4000", "0.0.0.0:4000"}
 				s.destStr = bad[G.Draw(len(bad))]
 				s.dest, _ = net.ResolveUDPAddr("udp", s.destStr)
+			case 6: // a host name that does not resolve: no destination at all
+				s.destOK = false
+				s.destErr = "resolve"
+				s.destStr = fmt.Sprintf("no-such-host-%d.example.net:4000", G.Draw(3))
+				s.dest = nil
 			}
 			psz := []int{0, 1, 10, 100, 1200, 1472}[G.Draw(6)]
 			if G.Draw(10) == 0 {
@@ -585,6 +594,9 @@ func (r *udpRun) check(which string) {
 				status = "ERR_READ_ADDRESS"
 			case !s.destOK:
 				status = "ERR_ADDRESS" // _INVALID or _PRIVATE
+				if s.destErr == "resolve" {
+					status = "ERR_RESOLVE"
+				}
 			default:
 				status = "OK"
 			}
